@@ -509,6 +509,8 @@ def ascii_safe_leaf(c, leaf):
     # validated hexadecimal text: bytes.fromhex accepted it, hence ASCII only
     if s.holds(("ok", CallT("ext:bytes.fromhex", [leaf]))):
         return True
+    if isinstance(leaf, tuple) and leaf and leaf[0] in ("param", "sub", "elem", "attr") and hex_validated(s, leaf):
+        return True
     if is_call(leaf, "method:hex") or (is_call(leaf, "method:decode") and leaf[2] and is_call(leaf[2][0], "ext:binascii.hexlify")):
         return True
     if isinstance(leaf, tuple) and leaf and leaf[0] == "excobj":
@@ -808,7 +810,16 @@ def hex_validated(s, x):
         from rules import hexlang
     except ImportError:
         return False
-    return hexlang.hex_missing_semantic(hexlang.current(), s, x, None) == []
+    if hexlang.hex_missing_semantic(hexlang.current(), s, x, None) == []:
+        return True
+    # ... or by a validator of the repository that is itself exact for the hex grammar (its
+    # accepting paths may each establish it in their own way; a merged summary cannot say so)
+    try:
+        from rules.c15 import _validated_by_exact_checker
+
+        return _validated_by_exact_checker(s, x, None)
+    except ImportError:
+        return False
 
 
 def known_len(s, x):
@@ -834,7 +845,7 @@ def _unhex_common(c, strict_ws):
     else:
         if ts is None or not ts <= {"str"}:
             c.rz("TypeError", "bytes.fromhex() of a non-string", [("nottype", x, frozenset(["str"]))])
-        if not c.known_ok:
+        if not c.known_ok and not validated:
             c.rz("ValueError", "bytes.fromhex() of non-hexadecimal text")
         facts.append(("type", x, frozenset(["str"])))
     n = known_len(c.s, x)
